@@ -2,6 +2,7 @@
 
 Correspondence: set_egress_amplifier / set_one_amplifier / set_amplifier_voa / target_power / round2float / span_loss on
 the real network vs Gnpy.Chain.designLine (ampStep, targetPower, round2float, lastSpanLoss/firstSpanLoss) per OMS.
+Also ref_pch_in_dbm of fibres and of the ROADM ending each line vs Gnpy.Chain.refIns.
 Monitor: budget identity, slope rule, saturation, user values on the designed objects (own arithmetic) + propagation
 of the design comb through every OMS (element calls) compared with p_ref + delta_p - out_voa.
 """
@@ -27,7 +28,7 @@ THEOREMS = [f'Gnpy.Chain.{t}' for t in (
     'gain_closes_budget', 'net_offset', 'ref_power_invariant', 'saturation_only_reduces', 'saturation_minimal',
     'saturation_minimal_gain_mode', 'saturation_minimal_gain_mode_no_in_voa',
     'gain_mode_in_voa_over_reduction_fails_current', 'saturation_auto_selected', 'user_values_kept', 'voa_rule', 'voa_nonneg',
-    'voa_auto_can_exceed_pmax_fails_current', 'nodeLoss_is_true_loss')]
+    'voa_auto_can_exceed_pmax_fails_current', 'nodeLoss_is_true_loss', 'ref_pch_in_consistent')]
 RULE = ('cases from one PRNG: (a) 78 % design cases: the star topologies of C08 (degree 1-5, 1-8 line elements per direction, user '
         'amplifiers with full/partial/no gain, delta_p, out_voa, in_voa, fused runs, Raman spans, transceiver-sourced '
         'line) x power/gain mode x delta_power_range/slope/reference/padding/EOL/VOA margin+step/extended gain/ROADM '
@@ -44,7 +45,7 @@ MODEL_SCOPE = ('modelled: round2float, target_power, span_loss with cached desig
                '(property C10) - its p_max / gain_flatmax / out_voa_auto are looked up in the library; the estimated '
                'Raman gain of RamanFibers (Raman solver not modelled); the ROADM egress reference power (C06). Not '
                'modelled: tilt targets / SRS deviation (zero for single-band Edfa), Multiband amplifiers, '
-               'set_roadm_input_powers / set_fiber_input_power (display values). Topologies on which designed_network '
+               'the per-degree warning of set_roadm_input_powers (the recorded ref_pch_in_dbm values ARE modelled: refIns). Topologies on which designed_network '
                'raises (RamanFiber whose launch power is not yet known: open finding of C08) are not generated')
 PARTIAL = []
 
@@ -61,7 +62,7 @@ def gen(rng, tier, widen=False):
         return gen_gain_saturation(rng)
     # RamanFiber placements that make designed_network raise (open finding raman-gain-before-estimate of C08) are kept
     # out of this generator
-    c = G.gen_case(rng, tier, widen, raman_crash_rate=0.0)
+    c = G.gen_case(rng, tier, widen, raman_crash_rate=0.0, lumped=True)
     c['kind'] = 'design'
     return c
 
@@ -270,7 +271,9 @@ def run_design(case, drv):
         args = model_chain(case, ch, recs, lo, hi, target)
         args.update(span_cfg(sp))
         args.update(sels=sels, pref=f2b(pref_impl), pref_total=f2b(pref_total),
-                    src_power=f2b(source_power(case, ch, eq, pref_impl)))
+                    src_power=f2b(source_power(case, ch, eq, pref_impl)),
+                    # set_fiber_input_power / set_roadm_input_powers start from pref_ch_db behind a transceiver
+                    display_power=f2b(pref_impl if ch['src'] == 'TX' else source_power(case, ch, eq, pref_impl)))
         for r in recs:
             if r['kind'] == 'fiber' and r['length'] >= hi and abs(r['length'] / target - round(r['length'] / target)) < 1e-9:
                 ill_case = True
@@ -278,6 +281,10 @@ def run_design(case, drv):
     model_err = next((a['error'] for a in answers if 'error' in a), None)
     if err is not None or model_err is not None:
         res.cmp_exact('designed_network.error', err, model_err)
+        if err == 'NetworkTopologyError' and model_err == 'NetworkTopologyError':
+            # a generated lumped loss exactly on a sub-span boundary: rejected by the Fiber constructor (see C08)
+            res.stats.update({'design': 1, 'lump_on_boundary_rejected': 1})
+            return res
         if err is not None:
             cls = 'unlisted'
             if err == 'TypeError' and case.get('has_raman'):
@@ -330,6 +337,20 @@ def run_design(case, drv):
                     res.ill += 1
                 else:
                     res.cmp_float(f'{tag}.amp.target_pch_out_dbm', r['target_pch_out_dbm'], mt, abs_=1e-9, uid=r['uid'])
+
+        # reference input powers recorded on fibres and on the ROADM that ends the line
+        if not skip and len(a.get('ref_in', [])) == len(post[i]) + 1:
+            from gnpy.core import elements as E
+            refs = [b2f(x) for x in a['ref_in']]
+            impl_v, mod_v = [], []
+            for k, (obj, r) in enumerate(zip(post_objs[i], post[i])):
+                if r['kind'] in ('fiber', 'raman') and obj.ref_pch_in_dbm is not None:
+                    impl_v.append(float(obj.ref_pch_in_dbm))
+                    mod_v.append(refs[k])
+            if isinstance(ends[i], E.Roadm) and post_objs[i] and post_objs[i][-1].uid in ends[i].ref_pch_in_dbm:
+                impl_v.append(float(ends[i].ref_pch_in_dbm[post_objs[i][-1].uid]))
+                mod_v.append(refs[-1])
+            res.cmp_floats(f'{tag}.ref_pch_in_dbm(fibres, end ROADM)', impl_v, mod_v, abs_=1e-9)
 
     # ---- monitor --------------------------------------------------------------------------------------------------------------
     st = {'amps': n_amps, 'amps_auto_selected': 0, 'amps_user_dp': 0, 'amps_user_gain_kept': 0, 'amps_reduced': 0,
@@ -539,7 +560,7 @@ def run_malformed(case, drv):
         recs = [G.record(n) for n in pre_objs[0]]
         args = model_chain(case, ch, recs, lo, hi, target)
         args.update(span_cfg(case['span']))
-        args.update(sels=[], pref=f2b(0.0), pref_total=f2b(18.0), src_power=f2b(-20.0))
+        args.update(sels=[], pref=f2b(0.0), pref_total=f2b(18.0), src_power=f2b(-20.0), display_power=f2b(-20.0))
         model = drv.ask('c09.design', **args).get('error')
     res.cmp_exact('designed_network.error(malformed)', err, model)
     if err != 'ConfigurationError':
